@@ -20,7 +20,7 @@ PropTable ==
         ps \in Stored, slot \in E, dom \in PropDomsT }
 
 GenTable ==
-    { [dom |-> dom, ip |-> ip, v |-> GenericVerdict(dom, ip)] : dom \in GenDomsT, ip \in {"none", "listed", "unlisted"} }
+    { [dom |-> dom, ip |-> ip, v |-> GenericVerdict(dom, ip)] : dom \in GenDomsT, ip \in IPClasses }
 
 \* Every ordered pair of requests on a fresh key (all two-step histories), with expected outcome.
 AttOps == [s : E, t : E, root : RootsT]
